@@ -58,8 +58,8 @@ def angle_to_so3(alpha:float|np.ndarray, beta:float|np.ndarray, gamma:float|np.n
     return ret
 
 
-def _so3_to_angle_hf0(x00, x02, x12, x20, x21, x22, zero_eps):
-    x00, x02, x12, x20, x21, x22 = [x.real for x in (x00, x02, x12, x20, x21, x22)] #drop imag part
+def _so3_to_angle_hf0(x00, x10, x02, x12, x20, x21, x22, zero_eps):
+    x00, x10, x02, x12, x20, x21, x22 = [x.real for x in (x00, x10, x02, x12, x20, x21, x22)] #drop imag part
     beta = np.arccos(x22) #(0,pi)
     alpha = np.zeros_like(beta)
     gamma = np.zeros_like(beta)
@@ -67,11 +67,11 @@ def _so3_to_angle_hf0(x00, x02, x12, x20, x21, x22, zero_eps):
     ind1 = beta>(np.pi-zero_eps)
     ind2 = np.logical_not(np.logical_or(ind0, ind1))
     if np.any(ind0):
-        tmp0 = np.arccos(x00[ind0]) #(0,pi) alpha+gamma
+        tmp0 = np.arctan2(x10[ind0], x00[ind0]) % (2*np.pi) #(0,2*pi) alpha+gamma
         alpha[ind0] = tmp0/2
         gamma[ind0] = tmp0/2
     if np.any(ind1):
-        tmp0 = np.arccos(-x00[ind1]) #(0,pi) alpha-gamma
+        tmp0 = np.arctan2(-x10[ind1], -x00[ind1]) % (2*np.pi) #(0,2*pi) alpha-gamma
         alpha[ind1] = tmp0
         gamma[ind1] = 0
     if np.any(ind2):
@@ -100,7 +100,7 @@ def so3_to_angle(np0:np.ndarray, zero_eps:float=1e-7):
     assert (np0.ndim>=2) and (np0.shape[-2:]==(3,3))
     shape = np0.shape[:-2]
     np0 = np0.real.reshape(-1, 3, 3) #drop imag if complex
-    alpha,beta,gamma = _so3_to_angle_hf0(np0[:,0,0], np0[:,0,2], np0[:,1,2], np0[:,2,0], np0[:,2,1], np0[:,2,2], zero_eps)
+    alpha,beta,gamma = _so3_to_angle_hf0(np0[:,0,0], np0[:,1,0], np0[:,0,2], np0[:,1,2], np0[:,2,0], np0[:,2,1], np0[:,2,2], zero_eps)
     if len(shape)==0:
         ret = alpha[0],beta[0],gamma[0]
     else:
@@ -137,6 +137,7 @@ def su2_to_angle(np0:np.ndarray, zero_eps:float=1e-7):
     # ], axis=1).real.reshape(*shape, 3, 3)
     tmp0 = [
         0.5*(a*a+aH*aH-b*b-bH*bH), #x00
+        0.5j*(a*a-aH*aH-b*b+bH*bH), #x10
         -a*b-aH*bH, #x02
         1j*(aH*bH-a*b), #x12
         aH*b+a*bH, #x20
